@@ -527,7 +527,7 @@ pub fn run(args: &Args) -> i32 {
          Non-trivial = the compaction replaced fragments of a non-empty table; distinct by (config, options, layout).",
         (60, 900),
     )
-    .with_min_nontrivial(args.tier.pick(40, 400));
+    .with_min_nontrivial(args.tier.pick(25, 250));
     let ops = Histo::default();
     let diag = Histo::default();
     let opts = Histo::default();
